@@ -55,6 +55,93 @@ ASSUMPTIONS = ['dask merges the graphs handed to one compute call by task name (
                'DictChunkStore is addressed by slices not names: its keys are not compared, and negative offsets are '
                'not applied to it']
 
+# ---------------------------------------------------------------------------------------------------
+# The failing-input search after a broken translator item: model files that read the missing definition do not compile and
+# the pipeline leaves them out of the driver it rebuilds.  This module is imported BEFORE the pipeline regenerates anything,
+# so the driver found at import time is the one of the last good tree: keep a copy of it (only if it is up to date with the
+# model sources on disk and contains every wire of this check) and let the search use it when wires of this check are missing.
+
+C07_WIRES = (7, 71, 72, 73, 74)
+C07_MODEL_SOURCES = ('Model/Chunks.v', 'Model/ChunksMulti.v', 'Model/ChunksGenPy.v', 'Model/ChunksUrl.v', 'Base/Sx.v')
+
+
+def _sources_hash(core):
+    import hashlib
+    h = hashlib.sha256()
+    for f in C07_MODEL_SOURCES:
+        h.update(open(os.path.join(core.COQ, f), 'rb').read())
+    return h.hexdigest()
+
+
+def _snapshot_driver():
+    try:
+        import json
+        from vh import core
+        ex = core.EXTRACT_DIR
+        drv, lo, stamp = (os.path.join(ex, x) for x in ('driver', 'left_out_wires.json', 'stamp'))
+        if not (os.path.exists(drv) and os.path.exists(stamp)):
+            return
+        left = json.load(open(lo)) if os.path.exists(lo) else {}
+        if any(str(w) in left for w in C07_WIRES):
+            return
+        st = open(stamp).read()
+        if st != core.model_hash() + '|':          # not the driver of the sources on disk
+            return
+        dst = os.path.join(core.VERIF, 'build', 'c07_last_good')
+        tag = st + _sources_hash(core)
+        if os.path.exists(os.path.join(dst, 'tag')) and open(os.path.join(dst, 'tag')).read() == tag:
+            return
+        os.makedirs(dst, exist_ok=True)
+        tmp = os.path.join(dst, 'driver.tmp.%d' % os.getpid())
+        shutil.copy2(drv, tmp)
+        if open(stamp).read() != st:               # rebuilt meanwhile by another check
+            os.remove(tmp)
+            return
+        os.replace(tmp, os.path.join(dst, 'driver'))
+        with open(os.path.join(dst, 'tag'), 'w') as f:
+            f.write(tag)
+    except Exception:
+        pass
+
+
+_snapshot_driver()
+
+
+def _last_good_model(ctx):
+    """If wires of this check are missing from the current driver, answer model calls with the driver kept from the last
+    good tree (same model sources, only Gen/Generated.v differs).  Returns a note for the evidence or None."""
+    import json
+    import subprocess
+    from vh import core
+    lo = os.path.join(core.EXTRACT_DIR, 'left_out_wires.json')
+    left = json.load(open(lo)) if os.path.exists(lo) else {}
+    have_driver = os.path.exists(os.path.join(core.EXTRACT_DIR, 'driver'))
+    if have_driver and not any(str(w) in left for w in C07_WIRES):
+        return None
+    dst = os.path.join(core.VERIF, 'build', 'c07_last_good')
+    drv = os.path.join(dst, 'driver')
+    if not (os.path.exists(drv) and os.path.exists(os.path.join(dst, 'tag'))
+            and open(os.path.join(dst, 'tag')).read().endswith(_sources_hash(core))):
+        return 'no usable driver of the last good tree'
+
+    def model(cases):
+        if not cases:
+            return []
+        text = '\n'.join(core.to_sx(c) for c in cases) + '\n'
+        p = subprocess.run(['bash', '-c', 'ulimit -s unlimited 2>/dev/null; exec %s' % drv], input=text, stdout=subprocess.PIPE,
+                           stderr=subprocess.PIPE, text=True, timeout=3000, env=dict(os.environ, OCAMLRUNPARAM='l=8G'))
+        if p.returncode:
+            raise RuntimeError('model driver (last good tree) failed rc=%s: %s' % (p.returncode, p.stderr[-2000:]))
+        lines = p.stdout.split('\n')
+        if lines and lines[-1] == '':
+            lines.pop()
+        if len(lines) != len(cases):
+            raise RuntimeError('model driver returned %d lines for %d cases' % (len(lines), len(cases)))
+        return [core.parse_sx(l) for l in lines]
+    ctx.model = model
+    return 'model of the last good tree (wires %s are missing from the current driver)' % sorted(left)
+
+
 SYNC = dict(scheduler='synchronous')
 NAMES = {'dict': ['x'], 'npy': ['x', 'sub/x', 'a_b/c/x'], 's3': ['b_k/x_y', 'bk/x', 'b_k_/deep/x_']}
 DTYPES = ['u1', '<i2', '>i4', '<f4', '>f8', '?', '<c8', '>c16', 'S3', '<U2', '>u2',
@@ -1869,8 +1956,11 @@ def run_witness(ctx, be, w):
 
 
 def run(ctx):
-    if not ctx.model_ok:
-        # broken translator / model build: search with the last model binary that was built (model of the last good tree)
+    # broken translator / model build: search with the model binary kept from the last good tree
+    note = _last_good_model(ctx)
+    if note:
+        ctx.extra['search_model'] = note
+    if not ctx.model_ok and note is None:
         from vh import core
         if not os.path.exists(os.path.join(core.EXTRACT_DIR, 'driver')):
             raise RuntimeError('no model binary: cannot run the correspondence')
@@ -1928,6 +2018,9 @@ def run(ctx):
 def replay(ctx, doc):
     case = doc.get('case', {})
     sig = doc.get('signature', '')
+    note = _last_good_model(ctx)
+    if note:
+        ctx.extra['search_model'] = note
     with c07stores.FakeS3() as s3:
         be = Backends(s3)
         try:
